@@ -57,8 +57,11 @@ type MetricRegistry struct {
 	mu sync.Mutex
 	wg sync.WaitGroup
 
-	started bool
-	stopper chan bool
+	// lifecycleMu serialises Start and Stop and guards started; the poller never takes it,
+	// so Stop can wait for the poller without holding a lock the poller needs.
+	lifecycleMu sync.Mutex
+	started     bool
+	stopper     chan bool
 }
 
 // NewMetricRegistry will create a new Datadog MetricRegistry.
@@ -120,19 +123,21 @@ func NewMetricRegistryWithClient(
 
 // Start will start the metric registry polling
 func (r *MetricRegistry) Start() {
-	r.mu.Lock()
+	r.lifecycleMu.Lock()
 	if !r.started {
+		r.started = true
 		r.wg.Add(1)
 		go func() {
 			defer r.wg.Done()
 			r.run()
 		}()
 	}
-	r.mu.Unlock()
+	r.lifecycleMu.Unlock()
 }
 
 func (r *MetricRegistry) run() {
 	ticker := time.NewTicker(r.pollFrequency)
+	defer ticker.Stop()
 	for {
 		select {
 		case <-r.stopper:
@@ -153,15 +158,15 @@ func (r *MetricRegistry) run() {
 
 // Stop will gracefully stop the registry
 func (r *MetricRegistry) Stop() {
-	r.mu.Lock()
+	r.lifecycleMu.Lock()
 	if !r.started {
-		r.mu.Unlock()
+		r.lifecycleMu.Unlock()
 		return
 	}
 	r.stopper <- true
 	r.wg.Wait()
 	r.started = false
-	r.mu.Unlock()
+	r.lifecycleMu.Unlock()
 }
 
 // RegisterDistribution will register a distribution sample to this registry
